@@ -286,6 +286,17 @@ theorem sum_filter_split (σ) (f : Bool × P → Bool) : ∀ l : List (Bool × P
       have ih := sum_filter_split σ f l
       cases hf : f x <;> simp [List.filter_cons, hf, sumPt, ih] <;> omega
 
+theorem filter_perm_split (f : Bool × P → Bool) : ∀ l : List (Bool × P),
+    ((l.filter f).map (·.2) ++ (l.filter (fun x => !f x)).map (·.2)).Perm (l.map (·.2))
+  | [] => by simp
+  | x :: l => by
+      have ih := filter_perm_split f l
+      cases hf : f x
+      · simp only [List.filter_cons, hf, Bool.not_false, if_true, Bool.false_eq_true, if_false, List.map_cons]
+        exact (List.perm_middle).trans (List.Perm.cons _ ih)
+      · simp only [List.filter_cons, hf, Bool.not_true, if_true, Bool.false_eq_true, if_false, List.map_cons, List.cons_append]
+        exact List.Perm.cons _ ih
+
 theorem sum_nonneg_of (σ) : ∀ l : List P, (∀ k ∈ l, 0 ≤ evalPt σ k) → 0 ≤ sumPt σ l
   | [], _ => by simp [sumPt]
   | k :: l, h => by
@@ -561,6 +572,58 @@ theorem ccAny_default_prio (args : List (Bool × P)) (d1 : String) (d2 : Bnd) (d
   obtain ⟨H, hk, hp, _, hev, _⟩ := ccAny_default_helper args d1 d2 ds oid h1 h2
   refine ⟨H, (defaultPrios_spec _ hnd _).2 ⟨H, kid_mem_subs _ _ hk, ?_⟩, hev⟩
   rw [hp]; rfl
+
+theorem replaced_mem (pred : P → Bool) (f : P → P) : ∀ (ks : List P) (k : P), k ∈ ks → pred k = true →
+    (∀ k' ∈ ks, pred k' = true → k' = k) → f k ∈ replaceFirst ks pred f
+  | [], _, h, _, _ => by simp at h
+  | x :: r, k, h, hp, hu => by
+      unfold replaceFirst
+      by_cases hx : pred x = true
+      · have : x = k := hu x (by simp) hx
+        subst this
+        simp [hx]
+      · rw [if_neg hx]
+        rcases List.mem_cons.1 h with rfl | h
+        · exact absurd hp hx
+        · exact List.mem_cons.2 (Or.inr (replaced_mem pred f r k h hp (fun k' hk' => hu k' (by simp [hk']))))
+
+/-- **the helper of a defaulted `cc.Xor`**: its "at least one" half is a `cc.Any` with the same default around the same
+    alternatives, so (when the default names one of several alternatives) the rule holds, two levels down, ONE node `H`
+    tagged −2 that is true exactly when some non-default alternative is -/
+theorem ccXor_default_helper (args : List (Bool × P)) (d1 : String) (d2 : Bnd) (ds) (oid)
+    (h1 : ¬ ((sortById (orderArgs args)).map (fun c => ((false : Bool), c))).length ≤ 1)
+    (h2 : ¬ (((((sortById (orderArgs args)).map (fun c => ((false : Bool), c))).filter
+          (fun x => !(x.2.isLeaf && x.2.id == d1))).length ==
+          ((sortById (orderArgs args)).map (fun c => ((false : Bool), c))).length ||
+        (((sortById (orderArgs args)).map (fun c => ((false : Bool), c))).filter
+          (fun x => !(x.2.isLeaf && x.2.id == d1))).length == 0) = true)) :
+    ∃ A ∈ (mkCcXor args ((d1, d2) :: ds) oid).kids, ∃ H ∈ A.kids, H.mt.prio = some (-2) ∧
+      ∀ σ, evalPt σ H = if sumPt σ ((((sortById (orderArgs args)).map (fun c => ((false : Bool), c))).filter
+          (fun x => !(x.2.isLeaf && x.2.id == d1))).map (·.2)) ≥ 1 then 1 else 0 := by
+  obtain ⟨i, b, m, hx⟩ := mkXor_node args oid .ccXor
+  obtain ⟨H, hH, hp, _, hev, _⟩ := ccAny_default_helper ((sortById (orderArgs args)).map (fun c => ((false : Bool), c))) d1 d2 ds
+    (some (mkAtLeast 1 (orderArgs args) none none).id) h1 h2
+  refine ⟨mkCcAny ((sortById (orderArgs args)).map (fun c => ((false : Bool), c))) ((d1, d2) :: ds)
+    (some (mkAtLeast 1 (orderArgs args) none none).id), ?_, H, hH, hp, hev⟩
+  unfold mkCcXor
+  rw [hx]
+  simp only [setDflt]
+  show _ ∈ replaceFirst _ _ _
+  have hL : mkAtLeast 1 (orderArgs args) none none ∈ sortById [mkAtLeast 1 (orderArgs args) none none, mkAtMost 1 (orderArgs args) none] :=
+    (sortById_perm _).mem_iff.2 (by simp)
+  have hkids : (mkAtLeast 1 (orderArgs args) none none).kids = sortById (orderArgs args) := by simp [mkAtLeast, P.kids]
+  have := replaced_mem (fun k => !k.isLeaf && (match k with | .node _ _ _ w _ _ => w == 1 | _ => false))
+    (fun k => mkCcAny (k.kids.map (fun c => (false, c))) ((d1, d2) :: ds) (some k.id)) _ _ hL
+    (by simp [mkAtLeast, isLeaf])
+    (by
+      intro k' hk' hp'
+      have : k' = mkAtLeast 1 (orderArgs args) none none ∨ k' = mkAtMost 1 (orderArgs args) none := by
+        simpa using (sortById_perm _).mem_iff.1 hk'
+      rcases this with rfl | rfl
+      · rfl
+      · simp [mkAtMost, mkAtLeast, isLeaf] at hp')
+  rw [hkids] at this
+  exact this
 
 /-- non-vacuity: `cc.Any(a, b, c, default=a)` meets the hypotheses of `ccAny_default_helper` -/
 example :
